@@ -424,6 +424,8 @@ class FilesetEngine:
         return order, exp, cls_override
 
     def open_check(self, world, cls, d, order, by_name=None):
+        env.settle()
+
         def fn():
             from pathlib import Path
 
